@@ -152,6 +152,59 @@ pub fn run_oligo(c: &OFCase, work: &str, uid: &str) -> RunOut {
     RunOut { result, out, ctl }
 }
 
+/// C14 on ill-formed input text: whatever the reader makes of it (it may refuse: panic / Err), a run that completes must
+/// leave a file in which every byte was written (no NUL byte, last byte a newline) — rows tile the mapping for every input.
+pub fn eval_raw(req: &str, work: &str, uid: &str) -> Option<Fail> {
+    // ofraw <k> <threads> <header> <suffix> <hex bytes>
+    let w: Vec<&str> = req.split_whitespace().collect();
+    if w.len() != 6 {
+        return None;
+    }
+    let (k, threads, header) = (w[1].parse::<usize>().unwrap_or(3), w[2].parse::<usize>().unwrap_or(1), w[3] == "1");
+    let bytes = unhex(w[5]);
+    let inp = format!("{}/raw_{}{}", work, uid, w[4]);
+    let outp = format!("{}/rawout_{}.txt", work, uid);
+    std::fs::write(&inp, &bytes).unwrap();
+    let _ = std::fs::remove_file(&outp);
+    let mut oc = OligoComputer::new(inp.clone(), outp.clone(), k);
+    oc.set_threads(threads);
+    oc.set_norm(true);
+    oc.set_header(header);
+    install_sched("free");
+    let result = catch(std::panic::AssertUnwindSafe(|| oc.verif_vectorise_mmap()));
+    let ctl = verif::uninstall();
+    let out = std::fs::read(&outp).unwrap_or_default();
+    let _ = std::fs::remove_file(&inp);
+    let _ = std::fs::remove_file(&outp);
+    let completed = matches!(result, Ok(Ok(())));
+    if !completed {
+        return None; // refused: nothing is claimed about the file
+    }
+    let nul = out.iter().filter(|&&b| b == 0).count();
+    let mut bad_write = None;
+    if let Some(c) = &ctl {
+        for l in c.log.iter() {
+            let f: Vec<&str> = l.split(' ').collect();
+            if f[0] == "mmwrite" && f.len() >= 5 {
+                let (pos, len, cap): (usize, usize, usize) = (f[2].parse().unwrap_or(0), f[3].parse().unwrap_or(0), f[4].parse().unwrap_or(0));
+                if pos + len > cap {
+                    bad_write = Some(l.clone());
+                }
+            }
+        }
+    }
+    if nul > 0 || bad_write.is_some() || (!out.is_empty() && *out.last().unwrap() != b'\n') {
+        return Some(Fail {
+            class: "spec",
+            detail: format!("the run completed on ill-formed input but the mapped file has {} unwritten (NUL) bytes of {}{}", nul, out.len(), bad_write.map(|b| format!("; write outside the mapping: {}", b)).unwrap_or_default()),
+            theorem: "KT.mmap_no_unwritten",
+            impl_out: trunc(&show(&out), 400),
+            model_out: String::new(),
+        });
+    }
+    None
+}
+
 /// model-side expected bytes: header line (spec k-mers in column order) then one row per record
 pub struct Expect<'a> {
     pub model: &'a Model,
@@ -409,9 +462,95 @@ pub fn run_files(which: &str, tier: &str, seed: u64, model: &Model, corpus_lines
     for c in corpus_lines.iter().filter_map(|l| OFCase::parse(l)) {
         run_one(&c, "corpus", &mut rep, &mut exp, &mut traces, &mut branching);
     }
+    for (i, r) in corpus_lines.iter().filter(|l| l.starts_with("ofraw ")).enumerate() {
+        rep.evaluations += 1;
+        if let Some(f) = eval_raw(r, work, &format!("rawc{}", i)) {
+            rep.push_fail("corpus", format!("ill-formed input text: \"{}\"", trunc(&show(&unhex(r.split(' ').last().unwrap_or("-"))), 300)), r.clone(), f, 0);
+        }
+    }
     if tier == "replay" {
         rep.traces_validated = traces;
         return rep;
+    }
+    if which == "C16" {
+        // library entry points on degenerate record lists, with every kind of delimiter the setter accepts
+        let delims: Vec<Vec<u8>> = vec![b" ".to_vec(), b",".to_vec(), b"".to_vec(), b", ".to_vec(), b" | ".to_vec(), "µ".as_bytes().to_vec()];
+        let n = if tier == "thorough" { 600 } else { 90 };
+        for i in 0..n {
+            let k = rng.range(1, 5) as usize;
+            let nrec = rng.range(0, 6) as usize;
+            let recs: Vec<Vec<u8>> = (0..nrec).map(|_| match rng.below(7) {
+                0 => vec![],
+                1 => vec![b'A'; 1],
+                2 => gen::clean_seq(&mut rng, k.saturating_sub(1), gen::Flavor::Uniform),
+                3 => gen::clean_seq(&mut rng, k, gen::Flavor::Uniform),
+                4 => vec![b'N'; k + 2],
+                5 => { let mut s = gen::clean_seq(&mut rng, k + 3, gen::Flavor::Uniform); s[0] = b'N'; s }
+                _ => { let l = k + 1 + rng.below(20) as usize; gen::clean_seq(&mut rng, l, gen::Flavor::Uniform) }
+            }).collect();
+            let c = OFCase {
+                recs, k, norm: rng.chance(2, 3), header: rng.chance(1, 2), delim: delims[i % delims.len()].clone(), threads: *rng.pick(&[1usize, 4]),
+                path: rng.pick(&["mmap", "mmap", "batch:1", "batch:4294967296"]).to_string(), container: "fa".into(), sched: "free".into(),
+            };
+            let mut c = c;
+            if c.path == "mmap" {
+                c.norm = true; // the mapped writer is the normalised one
+            }
+            run_one(&c, "degenerate-library", &mut rep, &mut exp, &mut traces, &mut branching);
+        }
+        rep.traces_validated = traces;
+        return rep;
+    }
+    if which == "C14" {
+        // ill-formed inputs: FASTQ / FASTA text damaged the way concatenated or truncated files are
+        let mut raws: Vec<String> = Vec::new();
+        let n = if tier == "thorough" { 1500 } else { 200 };
+        for _ in 0..n {
+            let fastq = rng.chance(2, 3);
+            let nrec = rng.range(2, 7) as usize;
+            let mut parts: Vec<Vec<u8>> = Vec::new();
+            for i in 0..nrec {
+                let l = rng.range(1, 30) as usize;
+                let sq = gen::clean_seq(&mut rng, l, gen::Flavor::Uniform);
+                let mut t = Vec::new();
+                if fastq {
+                    t.extend_from_slice(format!("@r{}\n", i).as_bytes());
+                    t.extend_from_slice(&sq);
+                    t.extend_from_slice(b"\n+\n");
+                    t.extend(std::iter::repeat(b'I').take(l));
+                    t.push(b'\n');
+                } else {
+                    t.extend_from_slice(format!(">r{}\n", i).as_bytes());
+                    t.extend_from_slice(&sq);
+                    t.push(b'\n');
+                }
+                parts.push(t);
+            }
+            let mut bytes = Vec::new();
+            for (i, p) in parts.iter().enumerate() {
+                bytes.extend_from_slice(p);
+                if i + 1 < parts.len() && rng.chance(1, 2) {
+                    // blank line(s) between records (cat of files ending with an empty line), or a stray line
+                    bytes.extend_from_slice(*rng.pick(&[&b"\n"[..], &b"\n\n"[..], &b"\r\n"[..], &b" \n"[..], &b"+\n"[..], &b"junk\n"[..]]));
+                }
+            }
+            match rng.below(5) {
+                0 => { let cut = rng.below(bytes.len() as u64) as usize; bytes.truncate(cut); }
+                1 => bytes.extend_from_slice(b"\n\n"),
+                _ => {}
+            }
+            raws.push(format!("ofraw {} {} {} {} {}", rng.range(1, 4), *rng.pick(&[1u64, 1, 2, 4]), rng.below(2), if fastq { ".fq" } else { ".fa" }, hex(&bytes)));
+        }
+        for (i, r) in raws.iter().enumerate() {
+            rep.evaluations += 1;
+            progress(r);
+            rep.count("ill-formed-input/cases", 1);
+            if let Some(f) = eval_raw(r, work, &format!("raw{}", i)) {
+                if rep.fail_count("ill-formed-input", f.class) < 2 {
+                    rep.push_fail("ill-formed-input", format!("ill-formed input text: \"{}\"", trunc(&show(&unhex(r.split(' ').last().unwrap_or("-"))), 300)), r.clone(), f, 0);
+                }
+            }
+        }
     }
     let delims: Vec<Vec<u8>> = if which == "C14" {
         vec![b" ".to_vec(), b",".to_vec(), b"\t".to_vec(), b", ".to_vec(), b"".to_vec(), b" | ".to_vec(), b"::::".to_vec(), "µ".as_bytes().to_vec(), " → ".as_bytes().to_vec()]
